@@ -117,7 +117,7 @@ def _cfgfile(rundir, mc, fname, hist, invariants):
 
 # Generation jobs: pure functions of (rundir) returning (behaviours, [(name, TLCResult, complete)]); they are
 # run a few at a time (each TLC start costs ~2 s of JVM) by run_jobs(), which does the ctx bookkeeping.
-def witness_job(mc, w, *, must=True, timeout_s=300):
+def witness_job(mc, w, *, must=True, timeout_s=900):
     """A shortest behaviour ending in a Collect in which the rare step `w` happened (workers=1: the
     choice among equally short behaviours is deterministic)."""
     def job(rundir, i):
@@ -132,7 +132,7 @@ def witness_job(mc, w, *, must=True, timeout_s=300):
     return job
 
 
-def bfs_job(mc, *, emit="EmitEvery", workers=2, timeout_s=300, limit=None, seed=1):
+def bfs_job(mc, *, emit="EmitEvery", workers=2, timeout_s=900, limit=None, seed=1):
     """All behaviours of the bounded model that end in a Collect (a seeded sample beyond `limit`)."""
     def job(rundir, i):
         c = _cfgfile(rundir, mc, "bfs%d.cfg" % i, True, [emit])
@@ -144,7 +144,7 @@ def bfs_job(mc, *, emit="EmitEvery", workers=2, timeout_s=300, limit=None, seed=
     return job
 
 
-def sim_job(mc, *, num, depth, seed, timeout_s=300, limit=None):
+def sim_job(mc, *, num, depth, seed, timeout_s=1200, limit=None):
     """Random walks (-simulate, workers=1 so that the walks are a function of the seed)."""
     def job(rundir, i):
         c = _cfgfile(rundir, mc, "sim%d.cfg" % i, True, ["EmitAll"])
@@ -300,10 +300,13 @@ _RE_REJ = re.compile(r'<<"REJECTED_AT", (\d+)>>')
 _RE_ACC = re.compile(r'<<"ACCEPTED", (\d+)>>')
 
 
-def _validate_chunk(rundir, cfgpath, execs, tag, timeout_s):
-    """execs: list of (x, lines).  Returns (accepted_x, rejected [(x, lines, at)], devs {x: set}, states)."""
+def _validate_chunk(rundir, cfgpath, execs, tag, timeout_s, max_rejects):
+    """execs: list of (x, lines).  The monitor is deterministic and consumes the log in order, so on a
+    rejection everything before the offending execution is accepted; validation continues with what comes
+    after it.  After `max_rejects` rejections the rest of the chunk is left unvalidated (the check has
+    failed anyway).  Returns (accepted_x, rejected [(x, lines, at)], devs {x: set}, states, skipped)."""
     execs = list(execs)
-    rejected, devs, states = [], {}, 0
+    accepted, rejected, devs, states = [], [], {}, 0
     while execs:
         path = os.path.join(rundir, "trace-%s.ndjson" % tag)
         with open(path, "w") as f:
@@ -314,9 +317,13 @@ def _validate_chunk(rundir, cfgpath, execs, tag, timeout_s):
                   tag="tv-" + tag, deadlock=True, xmx="6g")
         states += r.distinct
         os.unlink(path)
+        used = {}
+        for d in r.printed("DEV"):
+            used.setdefault(d["x"], set()).update(d["used"])
         if _RE_ACC.search(r.out) and r.status == "ok":
-            for d in r.printed("DEV"):
-                devs.setdefault(d["x"], set()).update(d["used"])
+            accepted += [x for x, _ in execs]
+            devs.update(used)
+            execs = []
             break
         m = _RE_REJ.search(r.out)
         if not m:
@@ -329,14 +336,23 @@ def _validate_chunk(rundir, cfgpath, execs, tag, timeout_s):
             acc += len(lines)
         if hit is None:
             raise Broken("REJECTED_AT %d beyond the log" % pos)
+        for x, _ in execs[:hit]:
+            accepted.append(x)
+            if x in used:
+                devs[x] = used[x]
         rejected.append((execs[hit][0], execs[hit][1], pos - acc - 1))
-        del execs[hit]
-    return [x for x, _ in execs], rejected, devs, states
+        execs = execs[hit + 1:]
+        if len(rejected) >= max_rejects:
+            break
+    return accepted, rejected, devs, states, len(execs)
 
 
 def validate(ctx, byx, dev, *, deflimit=REAL_DEFLIMIT, checktime=True, parallel=4, chunk_events=30000,
-             timeout_s=900, tag="t"):
-    """Validate every execution log with spec/MetricsSyncTrace.tla.  `byx`: {x: [lines]}."""
+             timeout_s=900, tag="t", max_rejects=4):
+    """Validate every execution log with spec/MetricsSyncTrace.tla.  `byx`: {x: [lines]}.
+    `dev`: the deviation names the monitor may use (all names defined for the property being checked:
+    whether a used deviation is a KNOWN-FINDING or a VIOLATION is decided by ctx.deviation from
+    known_findings.txt, so an unlisted defect is reported by name instead of as a bare rejection)."""
     cfgpath = ctx.rundir.file("mon-%s.cfg" % tag)
     with open(cfgpath, "w") as f:
         f.write(MON_CFG % (tla_set([d for d in dev if d in ALL_DEVS]), deflimit, "TRUE" if checktime else "FALSE"))
@@ -351,10 +367,11 @@ def validate(ctx, byx, dev, *, deflimit=REAL_DEFLIMIT, checktime=True, parallel=
         chunks.append(cur)
     res = {"executions": len(byx), "events": sum(len(v) for v in byx.values()), "accepted": [], "rejected": [], "devs": {}}
     with cf.ThreadPoolExecutor(max_workers=max(1, parallel)) as ex:
-        futs = [ex.submit(_validate_chunk, ctx.rundir.path, cfgpath, c, "%s%d" % (tag, i), timeout_s)
+        futs = [ex.submit(_validate_chunk, ctx.rundir.path, cfgpath, c, "%s%d" % (tag, i), timeout_s, max_rejects)
                 for i, c in enumerate(chunks)]
         for f in futs:
-            acc, rej, devs, states = f.result()
+            acc, rej, devs, states, skipped = f.result()
+            res["skipped"] = res.get("skipped", 0) + skipped
             res["accepted"] += acc
             res["devs"].update(devs)
             ctx.states += states
@@ -362,6 +379,9 @@ def validate(ctx, byx, dev, *, deflimit=REAL_DEFLIMIT, checktime=True, parallel=
             for x, lines, at in rej:
                 res["rejected"].append({"x": x, "events": [json.loads(l) for l in lines], "at": at})
     ctx.traces += len(res["accepted"]) + len(res["rejected"])
+    if res.get("skipped"):
+        log("%d executions left unvalidated after %d rejections (%s)" % (res["skipped"], len(res["rejected"]), tag))
+        ctx.extra["executions_not_validated_after_rejections"] = ctx.extra.get("executions_not_validated_after_rejections", 0) + res["skipped"]
     return res
 
 
